@@ -50,6 +50,15 @@ def BVv(I, x):
     if isinstance(x, bool): return BoolVar(x, True)
     raise Unsupported(f'expected Boolean, got {x!r}')
 
+def harness_closure(val):
+    """model of calling the harness value closure (and only it: a crate closure wrapping it is executed from its MIR body)"""
+    def m(I, fr, fn, a):
+        f = a[0]
+        while isinstance(f, Ref): f = I.deref(f)
+        if not (isinstance(f, Agg) and f.name == '{closure@harness}'): return NotImplemented
+        return ok(val)
+    return m
+
 def _tmpref(v):
     f = mirsym.Frame(mirsym.Item('fn', '<tmp>', '')); f.locals['t'] = v; return Ref(f, 't', [])
 
@@ -765,7 +774,7 @@ def check_adversarial_alloc():
         from . import curve
         el = curve.mk_element('ark', X, Y, Z, T)
         clo = Agg('{closure@harness}', [])
-        I.models['fns'] = [(r'^<impl FnOnce.* as core::ops::FnOnce<\(\)>>::call_once$', lambda I_, fr, fn, a: ok(el)), (r'::vartime_compress_to_field$', lambda I_, fr, fn, a: FE.sym('Fq', 'enc'))] + I.models['fns']
+        I.models['fns'] = [(r'^<impl FnOnce.* as core::ops::FnOnce<\(\)>>::call_once$', harness_closure(el)), (r'::vartime_compress_to_field$', lambda I_, fr, fn, a: FE.sym('Fq', 'enc'))] + I.models['fns']
         r = I.call_item(it, [CSRef(), clo, Enum('ark_r1cs_std::alloc::AllocationMode', 'Witness', [])], generics={'T': 'ark_curve::element::projective::Element'})
         return r
     try: items, recs = run_r1cs(body, 'adversarial')
